@@ -145,7 +145,7 @@ func H_C06_OfflineSignature() {
 	priv, pub := nd.Ed25519Key()
 	dts := []int{7, 11, 8}
 	dt := dts[nd.IntRange(0, len(dts)-1)]
-	tts := []int{7, 1, 0}
+	tts := []int{7, 1, 0, 3, 4, 2, 6}
 	tt := tts[nd.IntRange(0, len(tts)-1)]
 	tp, _ := sigLens(tt)
 	exp := nd.Uint32()
